@@ -315,6 +315,7 @@ def rand_spec(rng, **force):
         "stats_wrapper": bool(rng.random() < 0.2),
         "level_shift": bool(rng.random() < 0.5),
         "max_steps": int(force.get("max_steps", 12)),
+        "precision_wrapper": (float(rng.choice([0.05, 0.5])) if rng.random() < 0.15 else None),
     }
     for k in ("shared_problem", "level_shift", "cutoff", "stats_wrapper", "hibernation"):
         if k in force:
@@ -359,6 +360,9 @@ def build(spec, run, plain=None):
             opt = 0.0
             p = P.PrecisionCutoffProblem(p, opt, spec["gsc"]["precision"])
             precision_problem = p
+        elif spec.get("precision_wrapper"):
+            # a precision wrapper in the stack although the stop condition does not read it (its ETA is the user's)
+            p = P.PrecisionCutoffProblem(p, 0.0, spec["precision_wrapper"])
         if spec.get("stats_wrapper"):
             p = P.StatsGatheringProblem(p)
         return r, fp, p
